@@ -213,6 +213,7 @@ def coq_static_build(targets: list[str] | None = None) -> tuple[bool, str]:
     COQ.mkdir(exist_ok=True)
     with open(COQ / '.build.lock', 'w') as lock:
         fcntl.flock(lock, fcntl.LOCK_EX)
+        subprocess.run([str(VERIF / 'tools' / 'gen_coqproject.sh')], check=False)
         mk = COQ / 'Makefile'
         proj = COQ / '_CoqProject'
         if not mk.exists() or mk.stat().st_mtime < proj.stat().st_mtime:
